@@ -163,3 +163,148 @@ pub fn run(a: &HashMap<String, String>) -> Value {
     out["arena"] = dump_arena();
     out
 }
+
+// ------------------------------------------------------------------------------------------------
+// C17 (parameter-set serialisation under thread pools): the REAL `write_custom` / `read_custom`, each run inside
+// a LOCAL rayon pool of the stated size (`ThreadPool::install`: `rayon::current_num_threads()` is the pool's size
+// there, which is what `parallelize` splits by). Generic over the engine: SymE (scenario `paramsio`, symbolic
+// secret, parameters built under a 1-thread pool so that the arena is deterministic) and Bls12 (scenario
+// `paramsio_real`, the native replay on real curve points).
+use group::Curve;
+use midnight_curves::pairing::Engine;
+
+fn in_pool<T: Send>(threads: usize, f: impl FnOnce() -> T + Send) -> T {
+    rayon::ThreadPoolBuilder::new().num_threads(threads).build().expect("rayon pool").install(f)
+}
+
+fn fmt_of(name: &str) -> SerdeFormat {
+    match name {
+        "processed" => SerdeFormat::Processed,
+        "unchecked" => SerdeFormat::RawBytesUnchecked,
+        _ => SerdeFormat::RawBytes,
+    }
+}
+
+fn hex(b: &[u8]) -> String {
+    b.iter().map(|x| format!("{x:02x}")).collect()
+}
+
+fn write_in_pool<E: Engine + std::fmt::Debug>(p: &ParamsKZG<E>, fmt: SerdeFormat, threads: usize) -> Result<Vec<u8>, String>
+where
+    E::G1: Curve + ProcessedSerdeObject,
+    E::G2: Curve + ProcessedSerdeObject,
+    ParamsKZG<E>: Sync,
+{
+    let r = in_pool(threads, || {
+        catch_unwind(AssertUnwindSafe(|| {
+            let mut b = vec![];
+            p.write_custom(&mut b, fmt).map(|_| b).map_err(|e| format!("Err({e})"))
+        }))
+    });
+    match r {
+        Ok(x) => x,
+        Err(p) => Err(format!("panic: {}", panic_msg(p))),
+    }
+}
+
+/// (i) bytes written under `threads` vs under 1 thread, (ii) read_custom of them under `threads`, compared through the
+/// public accessors, (iii) re-written bytes. `with_bytes`: include the byte strings (hex) in the output.
+fn io_check<E: Engine + std::fmt::Debug>(p: &ParamsKZG<E>, fmt: SerdeFormat, threads: usize, with_bytes: bool) -> Value
+where
+    E::G1: Curve + ProcessedSerdeObject + PartialEq,
+    E::G2: Curve + ProcessedSerdeObject + PartialEq,
+    ParamsKZG<E>: Sync + Send,
+{
+    let b1 = write_in_pool(p, fmt, 1);
+    let bt = write_in_pool(p, fmt, threads);
+    let mut out = json!({"threads": threads, "write_1": b1.as_ref().map(|b| b.len()).map_err(|e| e.clone()).ok(),
+        "write_1_err": b1.as_ref().err(), "write_t_err": bt.as_ref().err(),
+        "bytes_equal": matches!((&b1, &bt), (Ok(a), Ok(b)) if a == b)});
+    if with_bytes {
+        out["bytes_1"] = json!(b1.as_ref().ok().map(|b| hex(b)));
+        out["bytes_t"] = json!(bt.as_ref().ok().map(|b| hex(b)));
+    }
+    if let Ok(bytes) = &bt {
+        out["len_t"] = json!(bytes.len());
+        let r = in_pool(threads, || {
+            catch_unwind(AssertUnwindSafe(|| {
+                let mut rd = &bytes[..];
+                ParamsKZG::<E>::read_custom(&mut rd, fmt).map(|q| (q, rd.len())).map_err(|e| format!("Err({e})"))
+            }))
+        });
+        match r {
+            Err(pn) => out["read"] = json!({"status": "panic", "msg": panic_msg(pn)}),
+            Ok(Err(e)) => out["read"] = json!({"status": "err", "msg": e}),
+            Ok(Ok((q, left))) => {
+                let same_acc = q.g_lagrange() == p.g_lagrange() && q.g2() == p.g2() && q.s_g2() == p.s_g2();
+                let w1 = write_in_pool(&q, fmt, 1);
+                let wt = write_in_pool(&q, fmt, threads);
+                out["read"] = json!({"status": "ok", "unread": left, "same_accessors": same_acc, "max_k": catch_unwind(AssertUnwindSafe(|| q.max_k())).ok(),
+                    "rewrite_1_equal": matches!((&w1, &b1), (Ok(a), Ok(b)) if a == b),
+                    "rewrite_t_equal": matches!(&wt, Ok(a) if a == bytes),
+                    "rewrite_err": w1.as_ref().err().or(wt.as_ref().err())});
+            }
+        }
+    }
+    out
+}
+
+/// `sx paramsio k=2 fmt=processed pools=1,3,4,5 [vals=<file>]`
+pub fn run_io(a: &HashMap<String, String>) -> Value {
+    crate::set_concrete(a);
+    let k = arg_usize(a, "k", 2) as u32;
+    let fname = a.get("fmt").cloned().unwrap_or_else(|| "rawbytes".into());
+    let fmt = fmt_of(&fname);
+    let pools: Vec<usize> = a.get("pools").map(|s| s.split(',').map(|x| x.parse().unwrap()).collect()).unwrap_or_else(|| vec![1, 3]);
+    std::panic::set_hook(Box::new(|_| {}));
+    let s = {
+        reset_secret();
+        <SymF as ff::Field>::random(DummyRng)
+    };
+    let p = in_pool(1, || setup(k));
+    let gl: Vec<u32> = p.g_lagrange().iter().map(|e| id(e.0)).collect();
+    let runs: Vec<Value> = pools.iter().map(|t| io_check::<SymE>(&p, fmt, *t, true)).collect();
+    let _ = std::panic::take_hook();
+    json!({"scenario": "paramsio", "k": k, "fmt": fname, "rec": REC, "s": id(s), "gl_acc": gl, "g2_acc": id(p.g2().0), "s_g2_acc": id(p.s_g2().0),
+           "runs": runs, "arena": dump_arena()})
+}
+
+/// `sx paramsio_real k=2 fmt=processed pools=1,3,4,5 seed=7`: the same on BLS12-381 (native replay)
+pub fn run_io_real(a: &HashMap<String, String>) -> Value {
+    use midnight_curves::Bls12;
+    let k = arg_usize(a, "k", 2) as u32;
+    let fname = a.get("fmt").cloned().unwrap_or_else(|| "processed".into());
+    let fmt = fmt_of(&fname);
+    let pools: Vec<usize> = a.get("pools").map(|s| s.split(',').map(|x| x.parse().unwrap()).collect()).unwrap_or_else(|| vec![1, 3]);
+    std::panic::set_hook(Box::new(|_| {}));
+    let rng = SplitMix(arg_usize(a, "seed", 7) as u64);
+    let p = in_pool(1, || ParamsKZG::<Bls12>::unsafe_setup(k, rng));
+    let runs: Vec<Value> = pools.iter().map(|t| io_check::<Bls12>(&p, fmt, *t, false)).collect();
+    let _ = std::panic::take_hook();
+    json!({"scenario": "paramsio_real", "k": k, "fmt": fname, "runs": runs})
+}
+
+/// deterministic RNG for the native scenario (splitmix64)
+struct SplitMix(u64);
+impl rand_core::RngCore for SplitMix {
+    fn next_u32(&mut self) -> u32 {
+        self.next_u64() as u32
+    }
+    fn next_u64(&mut self) -> u64 {
+        self.0 = self.0.wrapping_add(0x9E3779B97F4A7C15);
+        let mut z = self.0;
+        z = (z ^ (z >> 30)).wrapping_mul(0xBF58476D1CE4E5B9);
+        z = (z ^ (z >> 27)).wrapping_mul(0x94D049BB133111EB);
+        z ^ (z >> 31)
+    }
+    fn fill_bytes(&mut self, d: &mut [u8]) {
+        for c in d.chunks_mut(8) {
+            let v = self.next_u64().to_le_bytes();
+            c.copy_from_slice(&v[..c.len()]);
+        }
+    }
+    fn try_fill_bytes(&mut self, d: &mut [u8]) -> Result<(), rand_core::Error> {
+        self.fill_bytes(d);
+        Ok(())
+    }
+}
